@@ -12,6 +12,24 @@ import (
 	pool "capnproto.org/go/capnp/v3/exp/bufferpool"
 )
 
+// RecordHeaderUnreadableErr matches (errors.Is) every error ReadNextAt returns because the bytes at the given offset
+// do not parse as a record header. The cause is still available through errors.Unwrap.
+var RecordHeaderUnreadableErr = errors.New("record header unreadable")
+
+type recordHeaderError struct {
+	offset uint64
+	path   string
+	err    error
+}
+
+func (e *recordHeaderError) Error() string {
+	return fmt.Sprintf("failed reading record header at offset %d in mmap reader for '%s': %v", e.offset, e.path, e.err)
+}
+
+func (e *recordHeaderError) Unwrap() error { return e.err }
+
+func (e *recordHeaderError) Is(target error) bool { return target == RecordHeaderUnreadableErr }
+
 type MMapReader struct {
 	mmapReader *mmap.ReaderAt
 	header     *Header
@@ -106,7 +124,8 @@ func (r *MMapReader) SeekNext(offset uint64) (uint64, []byte, error) {
 			trialOffset := uint64(next) + uint64(i)
 			record, err := r.ReadNextAt(trialOffset)
 			if err != nil {
-				if errors.Is(err, HeaderChecksumMismatchErr) || errors.Is(err, MagicNumberMismatchErr) || errors.Is(err, io.EOF) {
+				// the marker bytes can also occur inside a payload, in which case what follows does not parse as a header at all
+				if errors.Is(err, RecordHeaderUnreadableErr) || errors.Is(err, HeaderChecksumMismatchErr) || errors.Is(err, MagicNumberMismatchErr) || errors.Is(err, io.EOF) {
 					// try to seek again, the record couldn't be read fully
 					i = ix
 					continue
@@ -163,7 +182,7 @@ func (r *MMapReader) ReadNextAt(offset uint64) ([]byte, error) {
 		headerByteReader := newChecksumByteReader(bytes.NewReader(headerBufPooled[:numRead]), headerBufPooledCrc)
 		payloadSizeUncompressed, payloadSizeCompressed, recordNil, err := readRecordHeaderV4(headerByteReader)
 		if err != nil {
-			return nil, fmt.Errorf("failed reading record header at offset %d in mmap reader for '%s': %w", offset, r.path, err)
+			return nil, &recordHeaderError{offset: offset, path: r.path, err: err}
 		}
 
 		if recordNil {
@@ -261,7 +280,7 @@ func readNextAtV2(r *MMapReader, offset uint64) ([]byte, error) {
 	headerByteReader := NewCountingByteReader(bufio.NewReader(bytes.NewReader(headerBufPooled[:numRead])))
 	payloadSizeUncompressed, payloadSizeCompressed, err := readRecordHeaderV2(headerByteReader)
 	if err != nil {
-		return nil, fmt.Errorf("failed reading record header at offset %d in mmap reader for '%s': %w", offset, r.path, err)
+		return nil, &recordHeaderError{offset: offset, path: r.path, err: err}
 	}
 
 	expectedBytesRead, pooledRecordBuf := allocateRecordBufferPooled(r.bufferPool, r.header, payloadSizeUncompressed, payloadSizeCompressed)
@@ -317,7 +336,7 @@ func readNextAtV3(r *MMapReader, offset uint64) ([]byte, error) {
 	headerByteReader := NewCountingByteReader(bufio.NewReader(bytes.NewReader(headerBufPooled[:numRead])))
 	payloadSizeUncompressed, payloadSizeCompressed, recordNil, err := readRecordHeaderV3(headerByteReader)
 	if err != nil {
-		return nil, fmt.Errorf("failed reading record header at offset %d in mmap reader for '%s': %w", offset, r.path, err)
+		return nil, &recordHeaderError{offset: offset, path: r.path, err: err}
 	}
 
 	if recordNil {
